@@ -1333,7 +1333,12 @@ def pattern_mul_i32(context, tree, c0, c1):
     return d
 
 
-@isa.pattern("reg", "LDRI32(ADDI32(reg, CONSTI32))", size=2)
+@isa.pattern(
+    "reg",
+    "LDRI32(ADDI32(reg, CONSTI32))",
+    size=2,
+    condition=lambda t: t[0][1].value in range(-2048, 2048),
+)
 def pattern_ldr_i32_add(context, tree, c0):
     d = context.new_reg(RiscvRegister)
     c1 = tree.children[0].children[1].value
